@@ -296,6 +296,8 @@ type facts struct {
 	execInactive       bool
 	agentState         string
 	agentInactive      bool
+	execWalkPerTask    bool // HandleExecutorFailed: every entry of the snapshot gets its body (walkfacts.go)
+	agentWalkPerTask   bool // HandleAgentFailed: the same
 	internalGuard      string // literal compared with env.CurrentState() in the TASK_INTERNAL_ERROR case
 	internalUpdates    bool   // UpdateState(sm.ERROR) on the task's parent role
 	internalStops      bool   // TryTransition(NewStopActivityTransition…)
@@ -418,6 +420,8 @@ func extract(repo string) (*facts, error) {
 	if ft.agentState, ft.agentInactive, err = lost("HandleAgentFailed"); err != nil {
 		return nil, err
 	}
+	ft.execWalkPerTask = walkPerTask(funcDecl(mf, "Manager", "HandleExecutorFailed"))
+	ft.agentWalkPerTask = walkPerTask(funcDecl(mf, "Manager", "HandleAgentFailed"))
 	// ---- core/environment/manager.go handleDeviceEvent
 	ef, err := parseFile(repo + "/core/environment/manager.go")
 	if err != nil {
@@ -688,6 +692,8 @@ func genFacts(repo string) (string, error) {
 	w("go/ast, HandleExecutorFailed: UpdateStatus(INACTIVE) on the parent role", "execInactive", "Bool", bs(ft.execInactive))
 	w("go/ast, HandleAgentFailed: literal passed to updateTaskState", "agentState", "String", strconv.Quote(ft.agentState))
 	w("go/ast, HandleAgentFailed: UpdateStatus(INACTIVE) on the parent role", "agentInactive", "Bool", bs(ft.agentInactive))
+	w("go/ast, HandleExecutorFailed: updateTaskState and UpdateStatus(INACTIVE) sit, unconditionally (the latter under one `!= nil` test of the parent), in the body of a `range` loop over the snapshot `m.roster.filtered(…)`, and no statement of that body (function literals not entered) can leave the iteration: every entry of the snapshot gets its body", "execWalkPerTask", "Bool", bs(ft.execWalkPerTask))
+	w("go/ast, HandleAgentFailed: the same shape", "agentWalkPerTask", "Bool", bs(ft.agentWalkPerTask))
 	w("go/ast, handleDeviceEvent case TASK_INTERNAL_ERROR: the literal env.CurrentState() is compared with", "internalGuard", "String", strconv.Quote(ft.internalGuard))
 	w("go/ast, same branch: t.GetParent().UpdateState(sm.ERROR)", "internalUpdatesRole", "Bool", bs(ft.internalUpdates))
 	w("go/ast, same branch: env.TryTransition(NewStopActivityTransition(…))", "internalStops", "Bool", bs(ft.internalStops))
